@@ -42,22 +42,122 @@ PAIRING = {
 }
 
 
+_CTX_ALIASES = {}
+
+
+def ctx_aliases(fn_node):
+    """Local names bound to the context object (ctx = self.ownerDocument.context)."""
+    key = id(fn_node)
+    if key not in _CTX_ALIASES:
+        names = set()
+        for x in M.walk_no_nested(fn_node):
+            tgt = val = None
+            if isinstance(x, ast.Assign) and len(x.targets) == 1:
+                tgt, val = x.targets[0], x.value
+            elif isinstance(x, ast.NamedExpr):
+                tgt, val = x.target, x.value
+            elif isinstance(x, ast.AnnAssign) and x.value is not None:
+                tgt, val = x.target, x.value
+            if isinstance(tgt, ast.Name) and isinstance(val, ast.Attribute) and val.attr == 'context':
+                names.add(tgt.id)
+            elif isinstance(tgt, ast.Name) and isinstance(val, ast.Assign):
+                pass
+            # chained:  self.top = c = ...  is not a context alias
+        _CTX_ALIASES[key] = (names, fn_node)
+    return _CTX_ALIASES[key][0]
+
+
+_CUR_FN = [None]
+
+
+def stack_op(call, fn_node=None):
+    """'push' / 'pop' / None for a call node (context.push / context.append / createSubProcess; context.pop / endSubProcess),
+    also through a local alias of the context object."""
+    nm = M.call_name(call)
+    fn_node = fn_node if fn_node is not None else _CUR_FN[0]
+    if fn_node is not None and isinstance(call.func, ast.Attribute) and isinstance(call.func.value, ast.Name) \
+       and call.func.value.id in ctx_aliases(fn_node):
+        nm = 'context.' + call.func.attr
+    if nm.endswith('context.push') or nm.endswith('context.append') or nm.endswith('createSubProcess'):
+        return 'push'
+    if nm.endswith('context.pop') or nm.endswith('endSubProcess'):
+        return 'pop'
+    return None
+
+
 def pushpop_transfer(n, v):
     net, lo = v
     if isinstance(n, ast.Call):
-        nm = M.call_name(n)
-        if nm.endswith('context.push') or nm.endswith('context.append') or nm.endswith('createSubProcess'):
+        op = stack_op(n)
+        if op == 'push':
             net += 1
-        elif nm.endswith('context.pop') or nm.endswith('endSubProcess'):
+        elif op == 'pop':
             net -= 1
     return (net, min(lo, net))
 
 
 def is_pushpop(fn):
-    for c in M.calls_in(fn.node):
-        nm = M.call_name(c)
-        if re.search(r'context\.(push|pop|append)$', nm) or nm.endswith('createSubProcess') or nm.endswith('endSubProcess'):
-            return True
+    return any(stack_op(c, fn.node) for c in M.calls_in(fn.node))
+
+
+def function_refs(m, fn, expr, _depth=0, _seen=None):
+    """Functions of the package that the value of `expr` (evaluated in `fn`) can be: names of functions, and the
+    functions named in the class-level / module-level tables and the local variables the expression goes through."""
+    out = []
+    _seen = _seen if _seen is not None else set()
+    if _depth > 4:
+        return out
+    scope_fn = fn
+
+    def add_from(r, scope):
+        if isinstance(r, M.FunctionInfo):
+            if r not in out:
+                out.append(r)
+        elif isinstance(r, tuple) and r[0] == 'assign':
+            for e in r[2]:
+                if id(e) in _seen:
+                    continue
+                _seen.add(id(e))
+                for f in function_refs(m, r[1], e, _depth + 1, _seen):
+                    if f not in out:
+                        out.append(f)
+    for node in ast.walk(expr):
+        if isinstance(node, ast.Name):
+            if isinstance(scope_fn, M.FunctionInfo) and node.id in E._locals(scope_fn):
+                # a local variable: what it was assigned from
+                for x in M.walk_no_nested(scope_fn.node):
+                    val = None
+                    if isinstance(x, ast.Assign) and any(isinstance(t, ast.Name) and t.id == node.id for t in x.targets):
+                        val = x.value
+                    elif isinstance(x, ast.NamedExpr) and isinstance(x.target, ast.Name) and x.target.id == node.id:
+                        val = x.value
+                    if val is not None and id(val) not in _seen:
+                        _seen.add(id(val))
+                        for f in function_refs(m, scope_fn, val, _depth + 1, _seen):
+                            if f not in out:
+                                out.append(f)
+                continue
+            add_from(m.resolve_name(scope_fn, node.id), scope_fn)
+        elif isinstance(node, ast.Attribute):
+            if isinstance(node.value, ast.Name) and node.value.id in ('self', 'cls') and getattr(scope_fn, 'cls', None) is not None:
+                add_from(m.getattr_static(scope_fn.cls, node.attr), scope_fn)
+            else:
+                try:
+                    add_from(m.resolve_expr(scope_fn, node), scope_fn)
+                except Exception:
+                    pass
+    return out
+
+
+def is_indirect_call(m, fn, c):
+    """A call whose callee is computed (a table lookup, a conditional, the result of another call, a local variable)."""
+    f = c.func
+    if isinstance(f, (ast.Call, ast.Subscript, ast.IfExp, ast.BoolOp, ast.NamedExpr, ast.Lambda)):
+        return True
+    if isinstance(f, ast.Name) and f.id in E._locals(fn):
+        return True
+    if isinstance(f, ast.Name) and f.id in ('getattr', 'attrgetter', 'methodcaller', 'partial', 'partialmethod', 'map', 'filter', 'reduce', 'starmap'):
+        return True
     return False
 
 
@@ -97,6 +197,11 @@ def resolved_calls(m, fn):
                     callee = r
         if callee is not None and callee is not fn:
             out.append((c, callee))
+        elif callee is None and is_indirect_call(m, fn, c):
+            # a computed callee: every function its expression can evaluate to
+            for cal in function_refs(m, fn, f):
+                if cal is not fn:
+                    out.append((c, cal))
     return out
 
 
@@ -143,14 +248,50 @@ def r41(chk, m):
         return summaries[name]
 
     def transfer_for(fn, stack=()):
-        sites = {id(c): cal.fullname for c, cal in calls[fn.fullname] if cal.fullname in helpers}
+        sites = {}
+        for c, cal in calls[fn.fullname]:
+            sites.setdefault(id(c), []).append(cal.fullname)
+        sites = {k: v for k, v in sites.items() if any(x in helpers for x in v)}
 
         def transfer(n, v):
+            _CUR_FN[0] = fn.node
             if isinstance(n, ast.Call) and id(n) in sites:
                 net, lo = v
-                return flow.Multi({(net + dn, min(lo, net + dlo)) for dn, dlo in summary(sites[id(n)], stack)})
+                effs = set()
+                for name in sites[id(n)]:
+                    effs |= set(summary(name, stack)) if name in helpers else {(0, 0)}     # (one of several possible callees)
+                return flow.Multi({(net + dn, min(lo, net + dlo)) for dn, dlo in effs})
             return pushpop_transfer(n, v)
         return transfer
+
+    def indirection(name, _seen=None):
+        """Computed callees in `name` or in the helpers it calls that the structural rule cannot follow."""
+        _seen = _seen if _seen is not None else set()
+        if name in _seen or name not in byname:
+            return []
+        _seen.add(name)
+        fn = byname[name]
+        resolved = {id(c) for c, cal in calls[name]}
+        out = ['%s (line %s)' % (text(c.func)[:50], c.lineno) for c in M.calls_in(fn.node) if is_indirect_call(m, fn, c) and id(c) not in resolved]
+        for c, cal in calls[name]:
+            if cal.fullname not in PAIRING:
+                out += indirection(cal.fullname, _seen)
+        return out
+
+    def by_value_refs(name):
+        """Places where the function `name` is mentioned without being called."""
+        short = name.rsplit('.', 1)[-1]
+        out = []
+        for mod in m.modules.values():
+            called = {id(c.func) for c in ast.walk(mod.tree) if isinstance(c, ast.Call)}
+            for x in ast.walk(mod.tree):
+                if id(x) in called:
+                    continue
+                if (isinstance(x, ast.Name) and x.id == short and isinstance(x.ctx, ast.Load)) or (isinstance(x, ast.Attribute) and x.attr == short and isinstance(x.ctx, ast.Load)):
+                    out.append('%s:%s' % (mod.name, x.lineno))
+                elif isinstance(x, ast.Constant) and x.value == short:
+                    out.append('%s:%s (as a string)' % (mod.name, x.lineno))
+        return out
     for name in sorted(eff):
         fn = byname[name]
         chk.analysed(fn)
@@ -165,6 +306,11 @@ def r41(chk, m):
         normal, raised = flow.function_exits(fn.node, (0, 0), transfer_for(fn))
         ent = PAIRING.get(name)
         if ent is None:
+            refs = by_value_refs(name)
+            if refs:
+                chk.undecided(R, 'untabled: %s' % name, '%s pushes/pops the context stack and is handed around as a value (%s): who calls it is not '
+                              'determined by the structural rule' % (name, ', '.join(refs[:3])), chk.where(fn))
+                continue
             chk.fail(R, 'untabled: %s' % name,
                      '%s pushes/pops the context stack (net/min at exits %s) but is not in the pairing table and nothing in the '
                      'package calls it through a resolvable name: every push/pop site must be paired by construction'
@@ -173,6 +319,10 @@ def r41(chk, m):
         allowed, why = ent
         extra = sorted(set(normal) - allowed)
         missing = sorted(allowed - set(normal))
+        if (extra or missing) and indirection(name):
+            chk.undecided(R, name, '%s calls through computed callees (%s): its effect on the context stack is not determined by the structural rule'
+                          % (name, '; '.join(indirection(name)[:3])), chk.where(fn))
+            continue
         chk.verdict(R, name, not extra and not missing,
                     '%s: (net, lowest) at normal exits is %s, table requires %s (%s)%s'
                     % (name, sorted(normal), sorted(allowed), why,
@@ -180,6 +330,10 @@ def r41(chk, m):
                     chk.where(fn), '%s: %s' % (sorted(normal), why))
     missing = sorted(set(PAIRING) - eff)
     for name in missing:
+        if indirection(name):
+            chk.undecided(R, name, '%s calls through computed callees (%s): whether it still opens/closes its group is not determined by the '
+                          'structural rule' % (name, '; '.join(indirection(name)[:3])), name)
+            continue
         chk.fail(R, name, '%s is in the pairing table but no longer pushes or pops the context stack (its group is not opened/closed)' % name, name)
     # mode-specific: Macro.invoke / Environment.invoke / Array.invoke
     Macro = m.cls('plasTeX', 'Macro')
@@ -200,7 +354,7 @@ def r41(chk, m):
             h = SelfHooks(m, fn.cls)
             h.keep = lambda ev: ev[0] == 'call'
             h.should_inline = lambda fname, node, info: info is not None and info.fullname in helpers
-            it = A.Interp(model=m, scope=fn, hooks=h, max_iter=1, exc_edges=False, inline=3)
+            it = A.Interp(model=m, scope=fn, hooks=h, max_iter=1, exc_edges=False, inline=3, heap=True)
             outs = it.run_function(fn, env={'self.macroMode': m.class_const(Macro, mode)})
             chk.paths += len(outs)
             got = set()
@@ -215,6 +369,13 @@ def r41(chk, m):
                         net -= 1
                     lo = min(lo, net)
                 got.add((net, lo))
+            dispatch = [u for u in it.unknown_branches if 'macroMode' in u or 'MODE_' in u or 'plan' in u.lower() or 'callee' in u]
+            if got != exp and got > exp and dispatch:
+                # the mode dispatch itself was not followed: the other modes' paths are mixed in
+                A.IMPRECISION[:] = []
+                chk.undecided(R2, '%s [%s]' % (full, mode), 'the dispatch on the macro mode is not determined: %s' % '; '.join(sorted(set(dispatch))[:3]), chk.where(fn))
+                continue
+            A.IMPRECISION[:] = []
             chk.verdict(R2, '%s [%s]' % (full, mode), got == exp,
                         '%s with macroMode %s: (net, lowest) = %s, expected %s' % (full, mode, sorted(got), sorted(exp)),
                         chk.where(fn), str(sorted(got)))
@@ -706,26 +867,56 @@ def chain_rules(chk, m, rid):
                    'frame afterwards) %s, expected %s: %s; a lookup must not copy a name into another frame (a later global redefinition '
                    'would be hidden by the copy)'
                    % (meth, ', '.join('%s=%r' % kv for kv in extra.items()), sorted(got), sorted(want), label), chk.where(fn))
-    # unknown names
+    # unknown names: two real frames (ContextItem objects whose entries live in one dictionary used by the dict.* hooks and by the
+    # interpreter's own item protocol), the context object on top of them; lookups, the guard and the registration are interpreted
     fn = m.find_method(Context, '__getitem__')
     chk.analysed(fn)
-    env = ctx_heap(m, 2)
-    for f in env['__frames']:
-        f.attrs['__items'] = {}
-        f.attrs['__complete'] = True
-    env['self'].attrs['__items'] = env['__frames'][0].attrs['__items']      # context[key] = v is addGlobal
-    env['key'] = 'foo'
-    h = HeapHooks(m, Context)
-    h.keep = lambda ev: False
-    it = A.Interp(model=m, scope=fn, hooks=h, max_iter=2, exc_edges=False, precise_exc=True, heap=True)
-    got = set()
-    for kind, s2, v in it.run_function(fn, env=env):
-        reg = s2.env['__frames'][0].attrs['__items'].get('foo')
-        got.add((kind, 'a new class' if isinstance(v, A.Obj) else repr(v), 'registered globally' if (reg is v and isinstance(v, A.Obj)) else 'not registered'))
-    chk.decide(R, 'Context.__getitem__ registers the class made for an unknown name', got, {('return', 'a new class', 'registered globally')},
-               'looking up an unknown name gives %s; expected, on every path, one new class that is also registered in the global '
-               'frame - otherwise \\begin{foo} and \\end{foo} get different classes and the end no longer matches the begin' % sorted(got),
-               chk.where(fn))
+
+    class UH(HeapHooks):
+        def call(self, interp, node, fname, args, kwargs, state):
+            if fname == 'ismacro' and len(args) == 1:
+                return isinstance(args[0], A.Obj) and args[0].label.startswith('newclass:')
+            if fname == 'isinstance' and len(args) == 2 and isinstance(args[0], A.Obj) and args[1] in (str, int, list, dict, tuple):
+                return False
+            if fname == 'macroName' and len(args) == 1 and isinstance(args[0], A.Obj) and args[0].label.startswith('newclass:'):
+                return args[0].label.split(':', 1)[1]
+            if re.match(r'(log|macrolog|stacklog)\.\w+$', fname):
+                return A.NONE
+            return HeapHooks.call(self, interp, node, fname, args, kwargs, state)
+
+    def frames2():
+        dg, dt = {'known': A.Obj('known-class', {})}, {}
+        g = A.Obj('G', {'__own': dg, '__dict': dg, 'parent': None}, cls=ci)
+        t = A.Obj('T', {'__own': dt, '__dict': dt, 'parent': g}, cls=ci)
+        ctx = A.Obj('context', {'contexts': [g, t], 'top': t, 'warnOnUnrecognized': False, 'isMathMode': False}, cls=Context)
+        return ctx, g, t
+    for label, key, want in (('registers the class made for an unknown name', 'foo', ('return', 'a new class', 'registered globally')),
+                             ('finds a known name without making a class', 'known', ('return', 'the known class', 'nothing registered'))):
+        ctx, g, t = frames2()
+        h = UH(m, Context)
+        h.keep = lambda ev: False
+        it = A.Interp(model=m, scope=fn, hooks=h, max_iter=4, exc_edges=False, precise_exc=True, heap=True, inline=4)
+        got = set()
+        try:
+            outs = it.run_function(fn, env={'self': ctx, 'key': key, '__g': g, '__t': t})
+        except AnalysisError as e:
+            chk.undecided(R, 'Context.__getitem__ %s' % label, str(e), chk.where(fn))
+            continue
+        if it.imprecise or it.unknown_branches:
+            chk.undecided(R, 'Context.__getitem__ %s' % label, '; '.join(sorted(set(it.imprecise + it.unknown_branches))[:3]), chk.where(fn))
+            continue
+        for kind, s2, v in outs:
+            og, ot = s2.env['__g'].attrs['__own'], s2.env['__t'].attrs['__own']
+            reg = og.get(key)
+            where = ('nothing registered' if set(og) == {'known'} and not ot else
+                     ('registered globally' if (reg is v and isinstance(v, A.Obj) and key not in ot) else 'registered in frames G%s T%s' % (sorted(og), sorted(ot))))
+            what = 'a new class' if isinstance(v, A.Obj) and v.label.startswith('newclass:') else \
+                   ('the known class' if isinstance(v, A.Obj) and v.label == 'known-class' else repr(v))
+            got.add((kind, what, where))
+        chk.decide(R, 'Context.__getitem__ %s' % label, got, {want},
+                   'looking up %r gives %s; expected %s on every path - an unknown name gets one new class that is also registered in '
+                   'the global frame, otherwise \\begin{foo} and \\end{foo} get different classes and the end no longer matches the begin'
+                   % (key, sorted(got), want), chk.where(fn))
     # \newif guard
     fn = m.find_method(Context, 'newif')
     chk.analysed(fn)
